@@ -800,6 +800,12 @@ fire("c15-array-kernel-uses-float64-constant", "C15", ARRAY,
      "    import sys\n    return x * np.clip(np.reciprocal(y), None, sys.float_info.max)", "R15.9", "_safediv")
 
 
+fire("c18-tracer-root-guard-dropped", "C18", "funsor/ops/tracer.py",
+     "    if ids[id(root)] != len(ids) - 1:\n        raise ValueError(\"Function returns an input or constant unchanged\")\n", "", "R18.4", "trace_function")
+silent("c18-s-tracer-root-guard-assert", "C18", "funsor/ops/tracer.py",
+       "    if ids[id(root)] != len(ids) - 1:\n        raise ValueError(\"Function returns an input or constant unchanged\")\n", "    assert ids[id(root)] == len(ids) - 1, \"Function returns an input or constant unchanged\"\n")
+
+
 # ===== derived variants: must stay at the END of this file (they enumerate every rename() variant above) =====
 # `if c: A else: B` -> `if not c: B else: A` in the anchor functions (behaviour-preserving)
 def invert(prop, file, qual):
